@@ -253,6 +253,17 @@ func (x *Exec) ormList(st *State, fr *frame, t *Table, m string, args []Val, k f
 		s.decls = append(s.decls, fmt.Sprintf("(declare-fun %s (%s Int) Real)", f, gks))
 		it.Psum[g.Comp] = f
 		st.assume(fmt.Sprintf("(forall ((g!q %s)) (! (= (%s g!q 0) 0.0) :pattern ((%s g!q 0))))", gks, f, f))
+		// non-negative summands: the prefix sums grow along the sequence and the total over the listed rows is at
+		// most the aggregate over all rows (a sub-family of a family of non-negative reals; same trust class as
+		// lemma L-sum). Stated under the premise that every stored row has a non-negative summand.
+		ksortQ := keySortOf(len(t.PK))
+		_, termQ := x.ghostTerm(st, g, x.storedFields(st, t, "k!q"))
+		hasQ := s.comp(st, t.Name+".has")
+		nonneg := fmt.Sprintf("(forall ((k!q %s)) (! (=> (select %s k!q) (>= %s 0.0)) :pattern ((select %s k!q))))", ksortQ, hasQ, termQ, hasQ)
+		mono := fmt.Sprintf("(forall ((g!q %s) (i!q Int) (j!q Int)) (! (=> (and (<= 0 i!q) (<= i!q j!q) (<= j!q %s)) (<= (%s g!q i!q) (%s g!q j!q))) :pattern ((%s g!q i!q) (%s g!q j!q))))",
+			gks, n, f, f, f, f)
+		bound := fmt.Sprintf("(forall ((g!q %s)) (! (<= (%s g!q %s) (select %s g!q)) :pattern ((%s g!q %s))))", gks, f, n, s.comp(st, g.Comp), f, n)
+		st.assume(implies(nonneg, and(mono, bound)))
 	}
 	// completeness for emptiness: n = 0 iff no row matches (quantified, assumed ORM contract)
 	ksort := keySortOf(len(t.PK))
